@@ -120,6 +120,16 @@ func c13Program(seed uint64, tier string) (files []srcFile, prog *gen.Program, h
 		files = bundleSources(prog.B, ref.Layout{})
 		files = append(files, c13Extras(variant, hasErr))
 	}
+	if r.P(1, 6) {
+		// two independent syntax errors in two files: a long file whose error is at its very end, and a tiny file whose
+		// error is at its start. For one insertion order the reported error must be the same every time; under another
+		// order it may be the other one (and only that).
+		long := files[0]
+		long.Text += "\n/** */\n{template .zzBad}\n" + strings.Repeat("some text {$ij.a} more text\n", 200) + "{if}\n{/template}\n"
+		files[0] = long
+		files = append(files, srcFile{"tiny.soy", "{namespace tiny}\n{template .x}{if}{/template}\n"})
+		hasErr = true
+	}
 	if r.P(1, 2) {
 		// a file that compiles but whose JavaScript cannot be generated: the function exists only in the HTML backend
 		// and is met in the middle of param / data / index expressions (JS generation fails part-way)
@@ -247,6 +257,19 @@ func init() {
 				}
 				perms = sample
 			}
+			twoErrors := files[len(files)-1].Name == "tiny.soy" || (len(files) > 1 && files[len(files)-2].Name == "tiny.soy")
+			if twoErrors {
+				ctx.Obs("bundles_with_two_errors", 1)
+			}
+			allowed := map[string]bool{base: true}
+			if twoErrors {
+				// the error of each bad file alone is what may be reported when that file comes first
+				for _, f := range files {
+					if f.Name == "tiny.soy" || f.Name == files[0].Name {
+						allowed[c13Tuple([]srcFile{f}, prog.B.Globals, prog.Entry, prog.Data, prog.IJ)] = true
+					}
+				}
+			}
 			for _, p := range perms {
 				pf := make([]srcFile, len(files))
 				for k, idx := range p {
@@ -254,8 +277,13 @@ func init() {
 				}
 				other := c13Tuple(pf, prog.B.Globals, prog.Entry, prog.Data, prog.IJ)
 				ctx.Obs("permutations", 1)
-				if other != base {
+				if other != base && !(twoErrors && allowed[other]) {
 					return mk("file-order", other)
+				}
+				// the same order again must give the same result again
+				if again := c13Tuple(pf, prog.B.Globals, prog.Entry, prog.Data, prog.IJ); again != other {
+					base = other
+					return mk("repetition-of-permuted-order", again)
 				}
 			}
 			if i%25 == 0 {
@@ -268,6 +296,9 @@ func init() {
 			if obs["bundles_rejected"] == 0 || obs["bundles_accepted"] == 0 {
 				why = append(why, "both accepted and rejected bundles must be observed")
 			}
+			if obs["bundles_with_two_errors"] == 0 {
+				why = append(why, "no bundle with two independent errors")
+			}
 			if obs["process_boundaries_crossed"] < 2 || obs["permutations"] < 2 {
 				why = append(why, "at least 2 processes and 2 permutations must be compared")
 			}
@@ -275,7 +306,7 @@ func init() {
 		},
 		Assumptions: []string{
 			"render-time error text embeds debug.Stack() output and is compared only by success/failure",
-			"bundles carry at most one injected compile error, so the reported error may not depend on the order",
+			"bundles carry at most one injected rule violation; some carry two independent syntax errors in two files: then the reported error may depend on the insertion order (it must be the error of one of the two files alone) but not on the repetition",
 			"keys() over multi-key maps is not printed (order unspecified by the language)",
 		},
 	})
